@@ -342,7 +342,10 @@ func runRegistry(t *rapid.T, r *rec.Recorder) {
 		"tssUpdate":  m.Wrap(c.tssUpdate),
 		"tssAck":     m.Wrap(c.tssAck),
 		"ack":        m.Wrap(c.ackAnySigner),
-		"":           func(t *rapid.T) { m.T = t; m.R.Step() },
+		// another contract imitating the packet contract's PacketSent event must not make the module store a commitment or
+		// call the packet contract's privileged setSequence
+		"forgedSendEvent": m.Wrap(m.ActForgedSendEvent),
+		"":                func(t *rapid.T) { m.T = t; m.R.Step() },
 	}
 	t.Repeat(acts)
 	var ks []string
